@@ -267,12 +267,17 @@ func cmdCheck(args []string) int {
 	// vacuity covers
 	var covers []*Obligation
 	for _, r := range reports {
+		if len(r.Obls) == 0 {
+			continue // nothing was proved about this function, so nothing can be vacuous
+		}
 		for _, cp := range r.Cover {
 			var uses []string
+			native := false
 			if len(r.Obls) > 0 {
 				uses = r.Obls[0].Uses
+				native = r.Obls[0].Native
 			}
-			covers = append(covers, &Obligation{Name: r.Key + "#cover[" + cp.name + "]", Fn: r.Key, Kind: "cover", Query: r.coverQuery(cp), Uses: uses})
+			covers = append(covers, &Obligation{Name: r.Key + "#cover[" + cp.name + "]", Fn: r.Key, Kind: "cover", Query: r.coverQuery(cp), Uses: uses, Native: native})
 		}
 	}
 	prelude := c.prelude()
